@@ -1487,3 +1487,25 @@ macro_rules! moved_harness {
 moved_harness!(u54_moved_value_indexed_need0, 0);
 moved_harness!(u54_moved_value_indexed_need1, 1);
 moved_harness!(u54_moved_value_indexed_need2, 2);
+
+// ================================================================== U16b: the index walk that feeds migration reaches keys in every index table
+// While an index growth is pending, keys that were not yet moved live only in the older index tables of the reindex queue
+// (HashColumn::get and the write path search them). A walk over "every key of the column" has to reach them too.
+pub(crate) static mut WALKED_BITS: [bool; 64] = [false; 64];
+pub(crate) fn stub_entries_empty<L: LogQuery>(t: &IndexTable, _chunk_index: u64, _log: &L) -> Result<[crate::index::Entry; 64]> {
+	unsafe {
+		WALKED_BITS[(t.id.index_bits() & 63) as usize] = true;
+		Ok(std::mem::transmute::<[u64; 64], [crate::index::Entry; 64]>([0u64; 64]))
+	}
+}
+growth_harness!(#[kani::unwind(66)] #[kani::solver(kissat)] #[kani::stub(crate::index::IndexTable::entries, stub_entries_empty)] u16b_index_walk_reaches_queued_index_tables, {
+	let col = std::mem::ManuallyDrop::new(mk_growing_column(0));
+	unsafe { WALKED_BITS = [false; 64] };
+	let log: &'static crate::log::Log = Box::leak(Box::new(crate::log::verif_log::mk_log()));
+	let last_chunk = (1u64 << 18) - 1;
+	let r = ok(col.iter_index_internal(log, |_st| Ok(true), last_chunk));
+	assert!(r.is_some(), "U16.index_walk.no_error");
+	assert!(unsafe { WALKED_BITS[18] }, "U16.index_walk.current_index_is_walked");
+	assert!(unsafe { WALKED_BITS[16] && WALKED_BITS[17] }, "U16.index_walk.index_tables_queued_for_migration_are_walked");
+	kani::cover!(unsafe { WALKED_BITS[18] }, "reached");
+});
